@@ -406,9 +406,15 @@ type CaseB struct {
 	Packets int `json:"packets,omitempty"`
 	Period  int `json:"period,omitempty"`
 	Fate    int `json:"fate,omitempty"`
+	// long run with ONE fault: the Try-th exchange of packet number At gets Fate (Period 0)
+	At  int `json:"at,omitempty"`
+	Try int `json:"try,omitempty"`
 }
 
 func (c CaseB) String() string {
+	if c.Layer == "B-long" && c.At > 0 {
+		return fmt.Sprintf("B-long start=%d packets=%d fate=%s at exchange %d of packet %d (seq %d)", c.Start, c.Packets, world.Fate(c.Fate), c.Try, c.At, uint16(int(c.Start)+c.At))
+	}
 	if c.Layer == "B-long" {
 		return fmt.Sprintf("B-long start=%d packets=%d fate=%s every %d", c.Start, c.Packets, world.Fate(c.Fate), c.Period)
 	}
@@ -525,6 +531,9 @@ func executeLong(t *testing.T, c CaseB) (kind, detail string, steps int) {
 			if c.Period > 0 && steps%c.Period == 0 {
 				f = world.Fate(c.Fate)
 			}
+			if c.At > 0 && i == c.At && tries == c.Try {
+				f = world.Fate(c.Fate)
+			}
 			if err := p.exchange(f); err != nil {
 				return "exchange-error|long", fmt.Sprintf("packet %d: the server refused a packet of the ongoing stream: %v", i, err), steps
 			}
@@ -532,7 +541,7 @@ func executeLong(t *testing.T, c CaseB) (kind, detail string, steps int) {
 				return (p.cOut.VerifPending() > 0 || lastDone(p.cW)) && (p.sOut.VerifPending() > 0 || lastDone(p.sW))
 			})
 		}
-		if i%257 == 0 || i > c.Packets-200 || (i > 65400 && i < 65800) {
+		if i%257 == 0 || i > c.Packets-200 || (i > 65400 && i < 65800) || (c.At > 0 && i >= c.At-2 && i < c.At+140) {
 			if kind, detail = p.check(fmt.Sprintf("after packet %d", i), true); kind != "" {
 				return kind + "|long", detail, steps
 			}
@@ -673,9 +682,9 @@ func TestCheck(t *testing.T) {
 		depth = 6
 	}
 	alpha := "cs0123456"
-	starts := []uint16{0, 65408, 65530}
+	starts := []uint16{0, 65408, 65530, 65533, 65534, 65535}
 	if r.Thorough() {
-		starts = append(starts, 1, 32768, 65535, 65407)
+		starts = append(starts, 1, 32768, 65407, 65531, 65532)
 	}
 	for _, st := range starts {
 		var rec func(prefix string)
@@ -713,6 +722,39 @@ func TestCheck(t *testing.T) {
 				r.Sample(map[string]any{"case": c.String(), "outcome": k})
 			}
 			idx++
+		}
+	}
+	// Layer B (iii): ONE fault placed exactly at the wrap of the sequence number, with the
+	// acknowledgement memory full (hundreds of packets before it): every fate x every packet
+	// around the wrap x first / second exchange of that packet
+	{
+		type wr struct {
+			start   uint16
+			packets int
+		}
+		runs := []wr{{65000, 1200}}
+		if r.Thorough() {
+			runs = append(runs, wr{0, 66200}, wr{40000, 26000})
+		}
+		for _, w := range runs {
+			wrapAt := 65536 - int(w.start) // packet number that carries sequence number 0
+			for fate := 1; fate < int(world.NumFates); fate++ {
+				for at := wrapAt - 3; at <= wrapAt+2; at++ {
+					for try := 0; try < 2; try++ {
+						if r.Mine(idx) && !r.OverBudget() {
+							c := CaseB{Layer: "B-long", Start: w.start, Packets: w.packets, Fate: fate, At: at, Try: try}
+							var k, d string
+							var s int
+							r.Guard(idx, 600*time.Second, "hang|B-long", c.String(), c, func() { k, d, s = executeLong(t, c) })
+							recB(c, k, d, s)
+							if at == wrapAt && try == 0 {
+								r.Sample(map[string]any{"case": c.String(), "outcome": k})
+							}
+						}
+						idx++
+					}
+				}
+			}
 		}
 	}
 	// Layer A
